@@ -527,7 +527,8 @@ def run(run, model):
                        "collection, reversal after enumeration (shared with C08 R08.2, which also audits compile_match.rs)")
     run.try_rule(c08.r08_2, model)
     from rules import c01
-    run.try_rule(c01.r01_5, model, ("crates/compiler/src/compile_match.rs",))
+    # a case clause dropped by the Go dead-code pass makes the default arm run for that value: no clause is skipped in a rebuilt switch
+    run.try_rule(c01.r01_5, model, ("crates/compiler/src/compile_match.rs", "crates/compiler/src/go/dce.rs"))
     run.try_rule(r06_14, model)
     run.try_rule(r06_16, model)
     # a pattern variable named like a struct must be bound to its component (shared with C05 R05.14)
